@@ -11,7 +11,8 @@
 //!                        corrupt:"none"|"sig"|"imprint"|"tstinfo"|"truncate",
 //!                        // craft only:
 //!                        gen_time:"YYYYMMDDhhmmssZ", signing_time_attr:null|"YYMMDDhhmmssZ", accuracy:null|secs,
-//!                        attrs:bool, hash:"sha256"|"sha384"|"sha512", embed:"all"|"leaf"|"chain_only"|"none",
+//!                        attrs:bool, hash:"sha256"|"sha384"|"sha512", hash_label: name in messageImprint (default hash; "sha3-256" allowed),
+//!                        signer_digest:"sha256"|"sha384"|"sha512", embed:"all"|"leaf"|"chain_only"|"none",
 //!                        sid_issuer:hex, sid_serial:hex (DER INTEGER), tsa_chain_der:[hex..], tsa_der:hex,
 //!                        sign_key: pem | null (default tsa.key), tokens: n (default 1) },
 //!         ocsp: hex | null }
@@ -102,6 +103,7 @@ fn hash_oid(alg: &str) -> &'static str {
     match alg {
         "sha384" => "2.16.840.1.101.3.4.2.2",
         "sha512" => "2.16.840.1.101.3.4.2.3",
+        "sha3-256" => "2.16.840.1.101.3.4.2.8",
         _ => "2.16.840.1.101.3.4.2.1",
     }
 }
@@ -164,17 +166,21 @@ fn mint_openssl(tok: &Value, query: &[u8]) -> Result<Vec<u8>, String> {
     std::fs::read(wd.0.join("r.tsr")).map_err(|e| e.to_string())
 }
 
-fn sign_with_key(key_pem: &str, tbs: &[u8]) -> Result<Vec<u8>, String> {
+fn sign_with_key(key_pem: &str, tbs: &[u8], md: &str) -> Result<Vec<u8>, String> {
     let wd = WorkDir::new();
     wd.file("k.pem", key_pem.as_bytes());
     wd.file("tbs.bin", tbs);
-    run_openssl(&wd.0, &["dgst", "-sha256", "-sign", "k.pem", "-out", "sig.bin", "tbs.bin"])?;
+    let flag = format!("-{md}");
+    run_openssl(&wd.0, &["dgst", flag.as_str(), "-sign", "k.pem", "-out", "sig.bin", "tbs.bin"])?;
     std::fs::read(wd.0.join("sig.bin")).map_err(|e| e.to_string())
 }
 
 /// TimeStampResp built field by field; the CMS signature is made with `openssl dgst -sha256 -sign`.
 fn mint_craft(tok: &Value, message: &[u8]) -> Result<Vec<u8>, String> {
     let hash = tok["hash"].as_str().unwrap_or("sha256");
+    // hash_label: the algorithm *named* in messageImprint (default: the one really used); signer_digest: SignerInfo digest
+    let hash_label = tok["hash_label"].as_str().unwrap_or(hash);
+    let sd_alg = tok["signer_digest"].as_str().unwrap_or("sha256");
     let mut imprint = digest(hash, message);
     if tok["corrupt"] == "imprint" {
         imprint[0] ^= 0x01;
@@ -183,7 +189,7 @@ fn mint_craft(tok: &Value, message: &[u8]) -> Result<Vec<u8>, String> {
     let mut tst_parts = vec![
         int(1),
         oid("1.2.3.4.1"),
-        seq(&[alg_id(hash_oid(hash), true), tlv(0x04, &imprint)]),
+        seq(&[alg_id(hash_oid(hash_label), true), tlv(0x04, &imprint)]),
         int(tok["serial"].as_u64().unwrap_or(4097)),
         tlv(0x18, gen_time.as_bytes()),
     ];
@@ -196,7 +202,7 @@ fn mint_craft(tok: &Value, message: &[u8]) -> Result<Vec<u8>, String> {
     let (attrs_field, tbs) = if with_attrs {
         let mut attrs = vec![
             seq(&[oid("1.2.840.113549.1.9.3"), tlv(0x31, &oid(tst_oid))]),
-            seq(&[oid("1.2.840.113549.1.9.4"), tlv(0x31, &tlv(0x04, &digest("sha256", &tst_info)))]),
+            seq(&[oid("1.2.840.113549.1.9.4"), tlv(0x31, &tlv(0x04, &digest(sd_alg, &tst_info)))]),
         ];
         if let Some(st) = tok["signing_time_attr"].as_str() {
             let t = if st.len() == 13 { tlv(0x17, st.as_bytes()) } else { tlv(0x18, st.as_bytes()) };
@@ -210,7 +216,7 @@ fn mint_craft(tok: &Value, message: &[u8]) -> Result<Vec<u8>, String> {
     };
     let tsa = &tok["tsa"];
     let key = tok["sign_key"].as_str().or(tsa["key"].as_str()).unwrap_or("");
-    let mut sig = sign_with_key(key, &tbs)?;
+    let mut sig = sign_with_key(key, &tbs, sd_alg)?;
     if tok["corrupt"] == "sig" {
         let n = sig.len();
         sig[n - 1] ^= 0x01;
@@ -234,13 +240,13 @@ fn mint_craft(tok: &Value, message: &[u8]) -> Result<Vec<u8>, String> {
     };
     let key_is_ec = tok["tsa_key_kind"].as_str().unwrap_or("rsa") == "ec";
     let sig_alg = if key_is_ec { alg_id("1.2.840.10045.4.3.2", false) } else { alg_id("1.2.840.113549.1.1.1", true) };
-    let mut si = vec![int(1), seq(&[hexd(&tok["sid_issuer"]), hexd(&tok["sid_serial"])]), alg_id(hash_oid("sha256"), true)];
+    let mut si = vec![int(1), seq(&[hexd(&tok["sid_issuer"]), hexd(&tok["sid_serial"])]), alg_id(hash_oid(sd_alg), true)];
     if with_attrs {
         si.push(attrs_field);
     }
     si.push(sig_alg);
     si.push(tlv(0x04, &sig));
-    let mut sd = vec![int(3), tlv(0x31, &alg_id(hash_oid("sha256"), true)), seq(&[oid(tst_oid), tlv(0xA0, &tlv(0x04, &content))])];
+    let mut sd = vec![int(3), tlv(0x31, &alg_id(hash_oid(sd_alg), true)), seq(&[oid(tst_oid), tlv(0xA0, &tlv(0x04, &content))])];
     if tok["embed"].as_str().unwrap_or("all") != "none" {
         sd.push(tlv(0xA0, &cat(&certs)));
     }
